@@ -472,6 +472,10 @@ func runLockstepOpt(prefix string, pc ref.PConfig, alpha []ref.Cmd, hist []int, 
 		res.Finding = h.F(prefix+"-goroutine-leak", "history [%s]: goroutines never finished: %.400s", histNames(alpha, hist), leak)
 		res.FailedAt = len(hist) - 1
 	}
+	if a := be.FirstAnomaly(); a != "" && res.Finding == nil {
+		res.Finding = h.F(prefix+"-backend-anomaly", "history [%s]: %s", histNames(alpha, hist), a)
+		res.FailedAt = len(hist) - 1
+	}
 	if res.Finding == nil && strings.Contains(live.Log.String(), "panic") {
 		// recovered panics are expected only where the backend panics
 		expected := false
